@@ -145,7 +145,7 @@ func runC14(r *core.Run) {
 			return core.OK("panics", true)
 		})
 
-	L := core.Pick(r, 7, 9)
+	L := core.Pick(r, 7, 11)
 	r.Bound("frames", fmt.Sprintf("all sequences over ACGT of length 0..%d, plus every case pattern of every sequence of length <= 4", L))
 	core.Clause(r, "reading-frames", core.Opts{Rule: "every sequence over ACGT up to the bound (incl. lengths 0,1,2) and all mixed-case variants up to length 4: frame i == Translate(seq[min(i,len):] cut to a multiple of 3); non-trivial = all (lengths 0..2 are the boundary cases)"},
 		func(emit func(c14Bad) bool) {
